@@ -6,6 +6,7 @@ func init() {
 		Technique:   "SSA provenance/constant rules against Docker's own stdcopy writer (reference sibling in the module cache), who-may-read rule on the daemon stream, path-sensitive error-propagation over feasible paths",
 		Explanation: "Decides structural clauses of the Docker log-stream decoder for all byte streams and fragmentations: frame layout constants agree with docker/pkg/stdcopy, the stream is read only through io.ReadFull/io.CopyN with exactly the frame size, record fields come from the right parts of the line, every fault reaches a failure exit and the only clean end is the header EOF idiom.",
 		Decided: []string{
+			"ERR-CHAIN/OWN-WRAP (shared with C14): Err and Close of the stream and merge iterators reach every source; a header read failing with io.EOF or io.ErrUnexpectedEOF ends the stream cleanly",
 			"PV-CONST: header length, type offset, size offset/width/endianness, Systemerr id equal stdcopy's; payload read = int64(frameSize)",
 			"PV-API: the daemon stream is used only by io.ReadFull(rd, header[:]), io.CopyN(&buf, rd, n) and Close",
 			"PV-ORDER: buf.Reset precedes the payload read; the body is buf.String() (a copy); package does not import unsafe",
